@@ -13,7 +13,7 @@ ASSUMPTIONS = ["reference vf/ref/ec.py, self-tested against published RFC 6979 s
 NSHARDS = {"quick": 32, "thorough": 64}
 BUDGET_S = {"quick": 200, "thorough": 1800}
 MIN_HITS = {
-    'quick': {"mode_det": 2528, "mode_k": 416, "mode_rand": 416, "mode_digest": 416, "mode_msg": 416, "reverse_k": 1032, "edge_key": 1376, "ecdh": 992, "neg_verify": 23072},
+    'quick': {"mode_det": 2560, "mode_k": 416, "mode_rand": 416, "mode_digest": 416, "mode_msg": 420, "reverse_k": 1048, "edge_key": 1499, "ecdh": 992, "neg_verify": 23288},
     'thorough': {"mode_det": 92160, "mode_k": 23040, "mode_rand": 23040, "mode_digest": 23040, "mode_msg": 23040, "reverse_k": 57660, "edge_key": 65016, "ecdh": 23040, "neg_verify": 506880},
 }
 EDGE = [1, 2, 3, (ec.N - 1) // 2, (ec.N + 1) // 2, ec.N - 2, ec.N - 1]
@@ -46,7 +46,8 @@ def cases(ctx):
         yield dict(base, mode="k", hash=r.choice(["sha256", "sha256d"]), nonce=kk.to_bytes(32, "big").hex())
         yield dict(base, mode="rand", hash=r.choice(["sha256", "sha256d"]), reverse_k=r.random() < 0.5)
         yield dict(base, mode="msg", hash="sha256")
-        d = gen.rbytes(r, 32) if r.random() < 0.8 else r.choice([b"\x00" * 32, b"\xff" * 32, (ec.N).to_bytes(32, "big"), (ec.N - 1).to_bytes(32, "big"), (1).to_bytes(32, "big")])
+        d = gen.rbytes(r, 32) if r.random() < 0.7 else r.choice([b"\x00" * 32, b"\xff" * 32, (ec.N).to_bytes(32, "big"), (ec.N - 1).to_bytes(32, "big"), (1).to_bytes(32, "big"), (1).to_bytes(32, "little"), (ec.N + 1).to_bytes(32, "big"),
+                                                                 (ec.N + 1).to_bytes(32, "big")[::-1], (ec.N).to_bytes(32, "big")[::-1], (2).to_bytes(32, "little"), b"\x00" * 31 + b"\x02", (1 << 255).to_bytes(32, "big")])
         yield dict(base, mode="digest", msg=d.hex(), hash="none")
         yield {"k": "ecdh", "a": rkey(r).to_bytes(32, "big").hex(), "b": rkey(r).to_bytes(32, "big").hex(), "ca": r.random() < 0.5, "cb": r.random() < 0.5}
         # neighbours, executed back to back on the same thread: the same message under the negated key and under another key, the
@@ -61,6 +62,14 @@ def cases(ctx):
             a_, b_ = rkey(r), rkey(r)
             for aa, bb in ((a_, b_), (a_, ec.N - b_), (ec.N - a_, b_), (a_, b_)):
                 yield {"k": "ecdh", "a": "%064x" % aa, "b": "%064x" % bb, "ca": True, "cb": True}
+    # (key, message) pairs whose RFC 6979 nonce has two leading zero bytes / lies within 2^240 of the group order - found by searching
+    # with the reference (about one input in 65536 each): a signer that treats such nonces specially is no longer RFC 6979
+    if ctx.shard % 4 == 2 or ctx.tier == "thorough":
+        xs = 0x00C0FFEE00000000000000000000000000000000000000000000000000001234
+        for (hsh, rev), idxs in {("sha256", True): (14489, 28232), ("sha256", False): (40641, 191555), ("sha256d", True): (62276, 110332), ("sha256d", False): (160782, 250820)}.items():
+            for i_ in idxs:
+                yield {"k": "sign", "key": "%064x" % xs, "compressed": True, "msg": (b"nonce-search-%d" % i_).hex(), "mode": "det", "hash": hsh, "reverse_k": rev, "rare_nonce": True}
+        yield {"k": "sign", "key": "%064x" % xs, "compressed": True, "msg": (b"nonce-search-%d" % 191555).hex(), "mode": "msg", "hash": "sha256", "rare_nonce": True}
     # ECDH against crafted peer points (not derived from a private key): x just below p (>= the group order n), tiny x (leading zero
     # bytes in the secret), combined with private keys 1 / n-1 (the secret is then the peer's own x) and ordinary keys
     if ctx.shard % 4 == 0 or ctx.tier == "thorough":
@@ -142,6 +151,8 @@ def judge(ctx, case):
     ctx.hit("mode_" + mode)
     if case.get("twin"):
         ctx.hit("neighbour_sequence")
+    if case.get("rare_nonce"):
+        ctx.hit("rfc6979_nonce_with_rare_shape")
     ctx.nontrivial()
     if x in EDGE:
         ctx.hit("edge_key")
